@@ -144,3 +144,58 @@ Proof.
   - intros j. qc_unf. rewrite <- Qcz_add. change (Qcz 1) with 1%Qc. ring.
   - intros i Hi. replace (i =? 6) with false by (symmetry; apply Z.eqb_neq; lia). reflexivity.
 Qed.
+
+(** *** (family scaling) the Fokker-Planck decrement main() hands to FokkerPlanckMap, over the definitions GENERATED
+    from main() on every run (Gen/Gen_Scaling.v: [gen_e1] is the expression that reaches the `e1` parameter of the
+    FokkerPlanckMap constructor, inlined down to the options; [gen_fs] = denominator of t_sync (results file),
+    [gen_steps] = denominator of the angle (RF maps), [gen_dt] = the `dt` of the wake field).
+    For every field, interpretation of the comparisons and option values. *)
+From Inovesa Require Model.ScalingOps Gen.Gen_Scaling Proofs.ScalingP.
+Module ScalingFamily.   (* imports and scopes stay local to this block *)
+Import ScalingOps Gen_Scaling ScalingP.
+Local Open Scope F_scope.
+
+(** e1 = 2/(f_s * t_damp * steps) = 2 dt/t_damp, t_damp being the DampingTime option when it is positive *)
+Theorem C04_main_e1_formula :
+  forall (K : Fld) (O : Ops K) (L : leaf -> K) (B : bleaf -> bool),
+    o_lt O (L O_getDampingTime) 0 = false -> o_lt O 0 (L O_getDampingTime) = true ->
+    gen_fs K O L B <> 0 -> gen_steps K O L B <> 0 -> L O_getDampingTime <> 0 ->
+    gen_e1 K O L B = two / (gen_fs K O L B * L O_getDampingTime * gen_steps K O L B) /\
+    gen_e1 K O L B = two * gen_dt K O L B / L O_getDampingTime.
+Proof. exact e1_formula. Qed.
+Print Assumptions C04_main_e1_formula.
+
+(** the statement of the property's anchor in the options themselves (synchrotron frequency given, StepsPerTs >= 1,
+    StepsPerRevolution not given): e1 = 2/(SynchrotronFrequency * DampingTime * StepsPerTs) *)
+Theorem C04_main_e1_in_options :
+  forall (K : Fld) (O : Ops K) (L : leaf -> K) (B : bleaf -> bool),
+    o_lt O (L O_getDampingTime) 0 = false -> o_lt O 0 (L O_getDampingTime) = true ->
+    o_is0 O (L O_getSyncFreq) = false ->
+    o_lt O 0 (L O_getStepsPerTrev) = false -> o_lt O (L O_getStepsPerTsync) 1 = false ->
+    L O_getSyncFreq <> 0 -> L O_getStepsPerTsync <> 0 -> L O_getDampingTime <> 0 ->
+    gen_e1 K O L B = two / (L O_getSyncFreq * L O_getDampingTime * L O_getStepsPerTsync).
+Proof. exact e1_in_options. Qed.
+Print Assumptions C04_main_e1_in_options.
+
+(** DampingTime = 0 switches the Fokker-Planck term off (main() then builds the Identity map) *)
+Theorem C04_main_e1_off :
+  forall (K : Fld) (O : Ops K) (L : leaf -> K) (B : bleaf -> bool),
+    o_lt O (L O_getDampingTime) 0 = false -> o_lt O 0 (L O_getDampingTime) = false -> gen_e1 K O L B = 0.
+Proof. exact e1_off. Qed.
+Print Assumptions C04_main_e1_off.
+
+(** the time step behind it: dt = 1/(f_s * steps), revolutionpart = f_rev * dt for every consumer *)
+Theorem C04_main_dt_formula :
+  forall (K : Fld) (O : Ops K) (L : leaf -> K) (B : bleaf -> bool),
+    gen_fs K O L B <> 0 -> gen_steps K O L B <> 0 ->
+    gen_dt K O L B = 1 / (gen_fs K O L B * gen_steps K O L B).
+Proof. exact dt_formula. Qed.
+Print Assumptions C04_main_dt_formula.
+
+(** non-vacuity over Qc: f_s = 8000, t_damp = 1/100, StepsPerTs = 50 -> e1 = 2/4000 *)
+Example C04_main_e1_example :
+  let L := fun l => match l with O_getSyncFreq => Q2Qc 8000 | O_getDampingTime => Q2Qc (1 # 100) | O_getStepsPerTsync => Q2Qc 50
+                              | O_getStepsPerTrev => 0%Qc | _ => 1%Qc end in
+  this (gen_e1 QcF QcOps L (fun _ => false)) = (1 # 2000)%Q.
+Proof. vm_compute. reflexivity. Qed.
+End ScalingFamily.
